@@ -53,7 +53,7 @@ FLOORS = {
               "lookup.purged-not-returned": 4000, "op.swap.accepted": 800, "op.swap.refused-misaligned": 30, "op.cascade.accepted": 100,
               "op.dischargeSwap.fresh.accepted": 80, "op.dischargeSwap.sfp.accepted": 30, "op.add.accepted": 100, "op.remove.accepted": 100,
               "op.remove.to-sfp": 20, "op.remove.purged": 40, "tier.testreactor.ops": 300, "allpairs.swaps": 100,
-              "hook:Core.add": 500, "hook:Core.removeAssembly": 200, "hook:Assembly.moveTo": 2000, "hook:FuelHandler.swapAssemblies": 1000,
+              "add.to-an-occupied-location": 60, "hook:Core.add": 500, "hook:Core.removeAssembly": 200, "hook:Assembly.moveTo": 2000, "hook:FuelHandler.swapAssemblies": 1000,
               "hook:FuelHandler.dischargeSwap": 100,
               "public.getAssemblyWithStringLocation": 3000, "public.getAssemblyWithStringLocation.occupied": 45000,
               "public.getAssemblyWithStringLocation.empty": 40000, "public.getAssemblyByName": 60000, "public.getBlockByName": 250000,
@@ -1014,11 +1014,16 @@ class Session:
             tgt = rng.choice(here)
             new, _, _ = self.fresh(rng)
             n0 = len(core)
+            # Core.add documents a refusal for a location that is already filled: judged (each location holds at most one assembly)
+            rec.hit("add.to-an-occupied-location")
             try:
                 core.add(new, tgt.spatialLocator)
-                rec.skip("misuse probe: Core.add to an occupied location -> accepted")
+                rec.violation("location/add-to-an-occupied-location-accepted", "Core.add put %s on %s, which holds %s: the core now has %d children on that cell" % (
+                    new.getName(), tgt.getLocation(), tgt.getName(), sum(1 for x in core if x.spatialLocator == tgt.spatialLocator)), self.witness())
             except Exception as e:
-                rec.skip("misuse probe: Core.add to an occupied location -> raised %s, child list grew by %d" % (type(e).__name__, len(core) - n0))
+                rec.reject("Core.add to an occupied location refused (%s)" % type(e).__name__)
+                if len(core) != n0:
+                    rec.violation("location/refused-add-left-a-second-assembly", "Core.add to an occupied cell raised %s but the child list grew by %d" % (type(e).__name__, len(core) - n0), self.witness())
         self.dead = True
 
     def close(self):
